@@ -14,16 +14,23 @@ _IMMUTABLE_LEAF = (int, float, complex, str, bytes, bool, type(None), type, type
                    types.FunctionType, types.BuiltinFunctionType, types.MethodType, range)
 
 
+class Cancelled(BaseException):
+    """A cancellation-style signal raised by user code (not an Exception subclass, like KeyboardInterrupt)."""
+
+
 class Bomb:
     """A user value whose copy fails once it is armed (copies of an unarmed one are unarmed)."""
 
-    def __init__(self, armed=False):
+    def __init__(self, armed=False, signal=False):
         self.armed = armed
+        self.signal = signal
 
     def __deepcopy__(self, memo):
         if self.armed:
+            if self.signal:
+                raise Cancelled("bomb: the copy was cancelled")
             raise ValueError("bomb: this value refuses to be copied")
-        return Bomb(False)
+        return Bomb(False, self.signal)
 
     def __eq__(self, other):
         return isinstance(other, Bomb)
@@ -46,7 +53,7 @@ class Catcher:
 
         try:
             return Catcher(_copy.deepcopy(self.inner, memo))
-        except ValueError:
+        except (ValueError, Cancelled):
             return Catcher(None)
 
     def __eq__(self, other):
